@@ -56,6 +56,35 @@ def confirm(sid):
         shutil.rmtree(wt, ignore_errors=True)
 
 
+def detect_scratch(sid, props, tier="quick"):
+    """Like detect, but on a scratch worktree (VERIF_REPO) so that /repo stays untouched while
+    background runs use it.  Only a convenience for testing the machinery: registered checks run on /repo."""
+    out = os.path.join(common.VERIF, "seeded", sid)
+    patch = os.path.join(out, "patch.diff")
+    wt = "/tmp/detect-" + sid
+    sh("git -C %s worktree remove --force %s" % (common.REPO, wt))
+    sh("git -C %s worktree add -q --detach %s HEAD" % (common.REPO, wt))
+    results = {}
+    try:
+        a = sh("git -C %s apply %s" % (wt, patch))
+        if a.returncode != 0:
+            print("patch does not apply:", a.stdout)
+            return 2
+        for p in props:
+            r = sh("cd %s && VERIF_REPO=%s bin/check %s --tier %s" % (common.VERIF, wt, p, tier), timeout=7200)
+            viol = [l for l in r.stdout.splitlines() if l.startswith("VIOLATION")]
+            results[p] = {"exit": r.returncode, "violations": len(viol), "first": viol[:2], "tail": r.stdout.strip().splitlines()[-1:]}
+            print(p, "exit", r.returncode, "violations", len(viol), (viol[0][:260] if viol else r.stdout.strip().splitlines()[-1][:200]))
+    finally:
+        sh("git -C %s worktree remove --force %s" % (common.REPO, wt))
+        shutil.rmtree(wt, ignore_errors=True)
+    mp = os.path.join(out, "meta.json")
+    meta = json.load(open(mp))
+    meta.setdefault("detection", {})[tier] = results
+    json.dump(meta, open(mp, "w"), indent=1)
+    return 0
+
+
 def detect(sid, props, tier="quick"):
     out = os.path.join(common.VERIF, "seeded", sid)
     patch = os.path.join(out, "patch.diff")
@@ -92,4 +121,6 @@ if __name__ == "__main__":
     if "--thorough" in args:
         tier = "thorough"
         args.remove("--thorough")
+    if sys.argv[1] == "detect-scratch":
+        sys.exit(detect_scratch(sys.argv[2], args, tier))
     sys.exit(detect(sys.argv[2], args, tier))
